@@ -436,6 +436,25 @@ theorem resolve_same_key {gs : List Record} {st0 : State κ}
   obtain ⟨k, hk, hg⟩ := getRecordByName_some cfg h
   rw [hk]; exact records_keyed_by_own_name cfg hg0 ops k r hg
 
+/-- The exported bindings are a third listing of the names, and it agrees with by-name resolution:
+after every genesis + history `ExportGenesis` lists a binding exactly when that binding's own name
+resolves to this very record (name, address and restriction). -/
+theorem export_agrees_with_resolve {gs : List Record} {st0 : State κ}
+    (hg0 : initGenesis cfg {} gs = .ok st0) (ops : List Op) (r : Record) :
+    r ∈ exportGenesis (run cfg st0 ops) ↔ getRecordByName cfg (run cfg st0 ops) r.name = some r := by
+  have hI := inv_reachable cfg hg0 ops
+  constructor
+  · intro h
+    unfold exportGenesis allRecords at h
+    obtain ⟨⟨k, r'⟩, hm, rfl⟩ := List.mem_map.mp h
+    have hget := (mem_iff_get hI.recsNodup k r').mp hm
+    unfold getRecordByName
+    rw [hI.keyed k r' hget]; exact hget
+  · intro h
+    obtain ⟨k, _, hget⟩ := getRecordByName_some cfg h
+    unfold exportGenesis allRecords
+    exact List.mem_map.mpr ⟨(k, r), KV.get_some_mem hget, rfl⟩
+
 /-- A record outlives every history in which neither its owner (under any spelling of his
 address) nor governance signs anything.  (The hash does not collide on the finitely many names
 involved: those stored at the start and those the messages of the history mention.) -/
